@@ -82,23 +82,27 @@ class TVD:
                 eps=self.eps,
             )
 
-        elif self.method == "anisotropic bregman":
-            return skimage.restoration.denoise_tv_bregman(
-                img,
+        elif self.method in ["anisotropic bregman", "isotropic bregman"]:
+            # NOTE: scikit-image reads outside of the image for axes with a single voxel
+            # (reflection at the boundary without bounds check), such that the result
+            # depends on the neighbouring memory. Replicate such axes - which does not
+            # change the minimizer - and reduce afterwards.
+            single_voxel_axes = [
+                axis for axis in range(min(img.ndim, 2)) if img.shape[axis] == 1
+            ]
+            extended_img = img
+            for axis in single_voxel_axes:
+                extended_img = np.repeat(extended_img, 2, axis=axis)
+            result = skimage.restoration.denoise_tv_bregman(
+                extended_img,
                 weight=self.weight,
                 max_num_iter=self.max_num_iter,
                 eps=self.eps,
-                isotropic=False,
+                isotropic=self.method == "isotropic bregman",
             )
-
-        elif self.method == "isotropic bregman":
-            return skimage.restoration.denoise_tv_bregman(
-                img,
-                weight=self.weight,
-                max_num_iter=self.max_num_iter,
-                eps=self.eps,
-                isotropic=True,
-            )
+            for axis in single_voxel_axes:
+                result = np.take(result, [0], axis=axis)
+            return result
 
         elif self.method == "heterogeneous bregman":
             return darsia.split_bregman_tvd(
